@@ -17,12 +17,14 @@ def parseAns (t : String) : Option Ans :=
   | 'e' :: r => (String.ofList r).toNat?.map .err
   | _ => none
 
-def parseAnss : List String → Option (List Ans)
-  | [] => some []
-  | t :: ts => do
-    let a ← parseAns t
-    let as ← parseAnss ts
-    some (a :: as)
+def parseAnssAux : List String → List Ans → Option (List Ans)
+  | [], acc => some acc.reverse
+  | t :: ts, acc =>
+    match parseAns t with
+    | some a => parseAnssAux ts (a :: acc)
+    | none => none
+
+def parseAnss (ts : List String) : Option (List Ans) := parseAnssAux ts []
 
 def showCalls (cs : List Call) : String :=
   String.intercalate "," (cs.map fun c => s!"{c.off}:{c.len}:{c.got}")
